@@ -37,6 +37,7 @@ def _listing(job):
             lst = z.list()
             out["list"] = [(f.filename, f.uncompressed, f.is_directory, f.crc32) for f in lst]
             out["files"] = [f.filename for f in z.files]
+            out["files_isdir"] = [bool(f.is_directory) for f in z.files]
             out["needs_password"] = z.needs_password()
             gi = []
             for n in out["getnames"]:
@@ -93,8 +94,13 @@ def gen_archives(ctx, rng, tmp):
             out.append(("hist:" + mode, buf.getvalue(), "pw" if uses_pw else None))
             if uses_pw:
                 out.append(("hist:" + mode + ":nopw", buf.getvalue(), None))
-    for feat in ("multi-folder", "nonsolid", "folder-crc", "no-crc", "nums-explicit", "no-substreams", "aes", "combo", "plain"):
-        members = c06.gen_logical(rng)
+    # layouts and member-property patterns py7zr's own writer never produces (undefined attributes or times,
+    # Windows-style attribute words, no EmptyFile vector): every listing interface must derive kinds the same way
+    for feat in ("multi-folder", "nonsolid", "folder-crc", "no-crc", "nums-explicit", "no-substreams", "aes", "combo", "plain",
+                 "no-attr", "partial-attr", "no-mtime", "partial-mtime", "win-attr", "no-emptyfile-vector", "combo", "combo"):
+        members = c06.tweak_members(rng, c06.gen_logical(rng), feat)
+        if feat in ("no-attr", "partial-attr") and not any(m["kind"] == "dir" for m in members):
+            members.append({"name": "onlydir%d" % len(members), "kind": "dir", "data": b"", "attr": None, "mtime": 130000000000000000, "ctime": None, "atime": None})
         lay = c06.gen_layout(rng, members, feat)
         out.append(("ref:" + feat, refwriter.build(members, lay, rng), lay["password"]))
     for fn in ("test_1.7z", "test_6.7z", "solid.7z", "umlaut-non_solid.7z", "mblock_1.7z", "encrypted_1.7z", "lzma2delta_1.7z", "copy.7z", "test_folder.7z", "empty.7z"):
@@ -147,6 +153,9 @@ def run(ctx):
                 for (name, size, isdir, crc) in v["list"]:
                     if v["isdir"].get(name) is not None and isdir != v["isdir"][name]:
                         ctx.fail("C10:is_directory", "list() says is_directory=%s for %r but extraction created %s" % (isdir, name, "a directory" if v["isdir"][name] else "no directory"), inp)
+            if [bool(x[2]) for x in v["list"]] != v["files_isdir"]:
+                k = next(i for i, (x, y) in enumerate(zip(v["list"], v["files_isdir"])) if bool(x[2]) != y)
+                ctx.fail("C10:is_directory_interfaces", "list() says is_directory=%s for %r, files says %s" % (v["list"][k][2], v["list"][k][0], v["files_isdir"][k]), inp)
             for n, (a, b) in zip(v["getnames"], v["getinfo"]):
                 if a != n or b != n:
                     ctx.fail("C10:getinfo", "getinfo(%r) / getinfo(%r + '/') returned %r / %r" % (n, n, a, b), inp)
